@@ -38,6 +38,7 @@ def dispatch (blobs : Std.HashMap Nat ByteArray) (r : Rec) : Verdict :=
   | 15 => (let x := judgeContigStream r; { fails := x.1, tags := x.2 })
   | 16 => (let x := judgePlacedStream r; { fails := x.1, tags := x.2 })
   | 18 => (let x := judgeHC r; { fails := x.1, tags := x.2 })
+  | 19 => (let x := judgeHCstream r; { fails := x.1, tags := x.2 })
   | 100 => {}
   | _ => { fails := [("unknown_op", s!"op={r.op}")] }
 
